@@ -30,12 +30,20 @@ type Store struct {
 	last       time.Time
 	Trace      []string
 	readerMode int
+	skew       time.Duration // added to the wall clock: lets a harness make time pass
+}
+
+// Advance moves the store's clock forward.
+func (s *Store) Advance(d time.Duration) {
+	s.mu.Lock()
+	s.skew += d
+	s.mu.Unlock()
 }
 
 func New(name string) *Store { return &Store{name: name, objs: map[string]*obj{}} }
 
 func (s *Store) tick() time.Time {
-	t := time.Now().UTC()
+	t := time.Now().UTC().Add(s.skew)
 	if !t.After(s.last) {
 		t = s.last.Add(time.Nanosecond)
 	}
